@@ -20,6 +20,14 @@ def main():
     ]
     for corpus in ("main", "lib", "lib3", "generic", "present", "strings", "docs"):
         steps.append((f"e2 {corpus}", lambda c=corpus: driver.e2_build(c, "quick")))
+    def accepted():
+        import glob
+        dump = os.path.join(driver.BUILD, "e1-out", "accepted")
+        for f in glob.glob(dump + ".*"):
+            os.remove(f)
+        driver.run_e1(driver.build_e1(("serde-compat",)), "total", "quick", dump=dump)
+        driver.e2_build("accepted", "quick")
+    steps.append(("e2 accepted (items the derive accepts, from E1)", accepted))
     for name, f in steps:
         t = time.time()
         try:
